@@ -2,7 +2,7 @@
 import json
 import re
 
-from .. import common as c, gen, l1facts, l1stream, translate
+from .. import common as c, gen, genbins, l1facts, l1stream, translate
 
 THEOREMS = [("Sylvia.Thm.C15", "C15." + t) for t in ["used_iff", "used_nodup", "used_unused_partition", "where_iff", "api_consistent"]] + \
            [("Sylvia.Thm.Obl.Tables", "Obl.extraction_complete")]
@@ -94,5 +94,6 @@ def run(ctx):
     ctx.add_stream("L1-facts", len([m for m in meta if m]), len(shapes), samples=[meta[2][2], meta[-1][2]],
                    model_disagreements=nd, oracle_failures=bad)
     ctx.cov["traces_validated_against_impl"] += len([m for m in meta if m])
+    genbins.stream(ctx, "usable")
     ctx.cov["rule"] = ("generic contracts (0..4 parameters; direct, nested in Vec/Option/tuple/array/BTreeMap, only in a query response, unused; where-clauses incl. "
                        "bounds relating two parameters) and interfaces with associated types; distinct = (number of parameters, number used, number of predicates)")
